@@ -723,6 +723,12 @@ type renderer struct {
 	wire
 	w     *rtmpref.ChunkWriter
 	lalCS uint32 // the chunk size lal has been told (as far as the rendered messages say)
+	// desync: something rendered so far makes lal's chunk parser lose the writer's framing (a lying length, a
+	// chunk size only one side knows, fmt 2/3 on a fresh chunk stream).  Everything behind that point is read as
+	// arbitrary chunk headers, each of which makes lal allocate and zero its 24-bit length: bodies are kept short
+	// from there on (they are never parsed as what they were generated as anyway).
+	desync bool
+	used   map[int]bool // chunk stream ids that carried a full header
 }
 
 // pstate is a message being emitted chunk by chunk.
@@ -737,16 +743,22 @@ type pstate struct {
 }
 
 const maxTinyChunkBody = 5000
+const maxBodyAfterDesync = 3000
 
 func (r *renderer) start(m Msg) *pstate {
 	p := m.payload()
 	if m.ChunkSize > 0 {
 		r.w.ChunkSize = m.ChunkSize
 	}
+	if uint32(r.w.ChunkSize) != r.lalCS {
+		r.desync = true
+	}
 	if (r.w.ChunkSize < 16 || r.lalCS < 32) && len(p) > maxTinyChunkBody {
-		// tiny chunks (the writer's, or the size lal was told): keep the chunk count — and the 16 MiB buffer lal
-		// allocates per lying header once the two sides disagree — sane
+		// tiny chunks (the writer's, or the size lal was told): keep the chunk count sane
 		p = p[:maxTinyChunkBody]
+	}
+	if r.desync && len(p) > maxBodyAfterDesync {
+		p = p[:maxBodyAfterDesync]
 	}
 	decl := m.DeclLen
 	if decl < 0 {
@@ -757,6 +769,17 @@ func (r *renderer) start(m Msg) *pstate {
 		}
 		decl = 0
 	}
+	if decl > 0 && m.Fmt <= 1 {
+		// lying length: what exceeds it is read as chunk headers
+		if len(p) > decl+maxBodyAfterDesync {
+			p = p[:decl+maxBodyAfterDesync]
+		}
+		r.desync = true
+	}
+	if m.Fmt >= 2 && !r.used[m.Csid] {
+		r.desync = true // lal has no length for this chunk stream
+	}
+	r.used[m.Csid] = true
 	rm := rtmpref.Msg{Csid: m.Csid, TypeID: m.typeID(), StreamID: m.Msid, Ts: m.Ts, Payload: p}
 	ps := &pstate{m: m, p: r.w.Begin(rm, m.Fmt), rem: len(p), decl: decl}
 	if rm.TypeID == rtmpref.TypeSetChunkSize && len(p) >= 4 && decl == 0 {
@@ -813,6 +836,7 @@ func (r *renderer) msg(m Msg) {
 }
 
 func (r *renderer) plain(m rtmpref.Msg) {
+	r.used[m.Csid] = true
 	ps := &pstate{p: r.w.Begin(m, 0), rem: len(m.Payload), m: Msg{Csid: m.Csid}}
 	for !ps.p.Done() {
 		r.chunk(ps)
@@ -876,7 +900,7 @@ func (r *renderer) ilv(g *Ilv) {
 }
 
 func renderWire(c Case) wire {
-	r := &renderer{w: rtmpref.NewChunkWriter(128), lalCS: 128}
+	r := &renderer{w: rtmpref.NewChunkWriter(128), lalCS: 128, used: map[int]bool{}}
 	r.b = handshakeBytes(c.Handshake)
 	r.hsEnd = len(r.b)
 	if c.Stage != "raw" {
@@ -1173,8 +1197,8 @@ func searchBudget() time.Duration {
 		return 0
 	}
 	b := d * 55 / 100
-	if !pbt.Thorough() && b > 85*time.Second {
-		b = 85 * time.Second
+	if !pbt.Thorough() && b > 95*time.Second {
+		b = 95 * time.Second
 	}
 	return b
 }
@@ -1183,7 +1207,7 @@ func TestHostileRtmpPeer(t *testing.T) {
 	budget := searchBudget()
 	pbt.Run(t, pbt.Spec[Case]{
 		ID: "C04", Name: "hostile-rtmp-peer", Gen: genCase, Run: run, Classify: classify, Isolate: true,
-		Quick: 900, Thorough: 6000,
+		Quick: 900, Thorough: 5000,
 		Exclude: func(Case) string {
 			if budget > 0 && time.Since(startTime) > budget {
 				return "time-budget-exhausted"
